@@ -116,6 +116,10 @@ class Mesh:
         actual vertices, edges, blocks and other stuff to be inserted into
         blockMeshDict. After this has been done, the above objects
         cease to have any function or influence on mesh."""
+        if self.is_assembled:
+            # a second assembly would add every block once more; start over from the depot
+            self.clear()
+
         self.skip_edges = skip_edges
 
         # first, collect data about patches and merged stuff
